@@ -491,6 +491,19 @@ func runC11(c *Ctx) {
 	c.derivedCorners("C11")
 	c.sharedBoxes()
 	c.growShrink()
+	// malformed paths on writes: SetTF / UnsetTF must panic (or be a no-op) and leave every container as it was
+	m.Case("malformed-writes")
+	{
+		inner := m.NewList(gvInt(1), m.RefGV(m.NewObject(gvStr("k"), gvInt(2))))
+		o := m.NewObject(gvStr("a"), gvInt(1), gvStr("l"), m.RefGV(inner))
+		l := m.NewList(gvInt(0), m.RefGV(o), m.RefGV(inner))
+		for _, p := range []string{"", ".", "#", "a", "x1", ".l#x", ".l#", "#1.l#1x.k", "#x", "#1x", "#1#", "#2#1.", "#2#1.k.", ".l#1.k#0", "#-1", "#x#0", "#1x#0", "#1x.k", "#x.k", "#1.zz.y", "#2#5", "#0#0", ".a.b", ".l.x", "#1#0", "..a", ".#1", "##", "#+1", "#0x1", "#01"} {
+			m.SetTF(l, p, gvStr("v"))
+			m.UnsetTF(l, p)
+			m.OSetTF(o, p, gvStr("v"))
+			m.OUnsetTF(o, p)
+		}
+	}
 	// writes and unsets at indices around powers of two (padding, growth steps, width slips)
 	m.Case("long-writes")
 	for k := uint(4); k <= 12; k++ {
